@@ -375,6 +375,21 @@ class Sym:
                 if (self.M.strip(x) == vs or x == v) and is_const(y) and p in LESS and const_val(y) - LESS[p] <= cu:
                     return True
             return False
+        if is_const(vs) and const_val(vs) is not None:
+            # constant <= u: a lower bound for u among the facts (u > k, u >= k with k (+1) >= the constant)
+            cv = const_val(vs)
+            if cv >= (1 << 63):
+                cv -= (1 << 64)
+            for p, x, y in facts:
+                if (self.M.strip(x) == us or x == u) and is_const(y) and const_val(y) is not None and p in GREATER:
+                    k = const_val(y)
+                    if p[0] == "s" and k >= (1 << 31):
+                        k -= (1 << 32) if k < (1 << 32) else (1 << 64)
+                    if p[0] == "u" and cv < 0:
+                        continue
+                    if k + GREATER[p] >= cv:
+                        return True
+            return False
         for p, x, y in facts:
             xs, ys = self.M.strip(x), (self.M.strip(y) if not is_const(y) else y)
             if (xs == vs or x == v) and (ys == us or y == u) and p in LESS:
